@@ -20,6 +20,7 @@ The line-length *values* belong to C08.
 """
 import hashlib
 import itertools
+import os
 import random
 
 import numpy as np
@@ -99,17 +100,25 @@ def _mat(M):
     return np.asarray(M).astype(int)
 
 
-def _classify(R, exp, K, tk, miss_r, miss_c):
-    """Name the class of a mismatch between a library matrix and the oracle."""
+def _classify(R, exp, boundary, miss_r, miss_c):
+    """Name the class of a mismatch between a library matrix and the oracle.
+    `boundary(i, j)` tells whether dist(i,j) equals the threshold exactly."""
     R, exp = _mat(R), _mat(exp)
     if R.shape != exp.shape:
         return "shape"
     idx = np.argwhere(R != exp)
     if all((miss_r[i] or miss_c[j]) for i, j in idx):
         return "missing-recurrent"
-    if tk is not None and all(K[i][j] == tk and R[i, j] == 1 for i, j in idx):
+    if boundary is not None and all(
+            R[i, j] == 1 and boundary(i, j) for i, j in idx):
         return "boundary-not-strict"
     return "value"
+
+
+def _at(K, bk):
+    if bk is None:
+        return None
+    return lambda i, j: K[i][j] == bk
 
 
 # --------------------------------------------------------------------------
@@ -230,11 +239,13 @@ def _mk_rp(cls, arr, metric, kw, **par):
     return getattr(ts, cls)(arr, metric=metric, silence_level=3, **kw, **par)
 
 
-def _network(arr, metric, kw, par, variant, exp, missing, acc, directed=False):
-    """RecurrenceNetwork adjacency = R minus diagonal (missing states are
-    removed, as the constructor documents)."""
+def _network(arr, metric, kw, par, variant, R_plot, missing, acc,
+             directed=False):
+    """RecurrenceNetwork: adjacency = its recurrence matrix minus the diagonal
+    (missing states are removed, as the constructor documents); its R is the
+    R of the equally parametrised plot (checked against the oracle there)."""
     keep = [i for i, m in enumerate(missing) if not m]
-    tag = variant + ("+mv" if kw.get("missing_values") else "")
+    tag = variant + ("+mv" if any(missing) else "")
     acc.evals += 1
     try:
         net = _mk_rp("RecurrenceNetwork", arr, metric, kw, **par)
@@ -250,34 +261,40 @@ def _network(arr, metric, kw, par, variant, exp, missing, acc, directed=False):
                   _exc(e), "a network")
         return
     A = _mat(net.adjacency)
-    if exp is None:                       # adaptive: own R is the reference
-        exp = _mat(net.R).tolist()
-    want = _mat(rr.no_diagonal(exp))[np.ix_(keep, keep)] if keep else \
-        np.zeros((0, 0), int)
+    R = _mat(net.R)
+    if R.shape != R_plot.shape or not np.array_equal(R, R_plot):
+        acc.v("RecurrenceNetwork.R:differs-from-plot:" + tag,
+              "%s %r" % (metric, par), R, R_plot)
+    want = _mat(rr.no_diagonal(R.tolist()))[np.ix_(keep, keep)] if keep \
+        else np.zeros((0, 0), int)
     if A.shape != want.shape or not np.array_equal(A, want):
-        acc.v("RecurrenceNetwork.adjacency:value:" + tag,
-              "adjacency is not the recurrence matrix without its diagonal",
-              A, want)
+        loops = A.shape == want.shape and bool(np.diag(A).any())
+        acc.v("RecurrenceNetwork.adjacency:%s:%s" % (
+            "self-loops" if loops else "value",
+            "mv" if any(missing) else "plain"),
+              "%s %r: adjacency is not the recurrence matrix without its "
+              "diagonal" % (metric, par), A, want)
     if bool(net.directed) != directed:
         acc.v("RecurrenceNetwork.directed:value:" + tag, "", net.directed,
               directed)
-    bad = _sizes(net, "RecurrenceNetwork", net.R, tag, acc)
+    bad = _sizes(net, "RecurrenceNetwork", net.R,
+                 "missing_values" if any(missing) else "plain", acc)
     if not bad:
         _rate_value(net, "RecurrenceNetwork", net.R, tag, acc)
     acc.see(_rqa(net, "RecurrenceNetwork", tag, acc, bad))
 
 
-def _plot(arr, metric, kw, par, variant, exp, K, tk, missing, acc,
+def _plot(arr, metric, kw, par, variant, exp, boundary, missing, acc,
           network=True, directed=False):
     """Build a RecurrencePlot with parameters `par`, compare R with `exp`."""
-    tag = variant + ("+mv" if kw.get("missing_values") else "")
+    tag = variant + ("+mv" if any(missing) else "")
     acc.evals += 1
     rp = _mk_rp("RecurrencePlot", arr, metric, kw, **par)
     R = _mat(rp.recurrence_matrix())
     acc.see(metric, par, R.tolist())
     if R.shape != _mat(exp).shape or not np.array_equal(R, _mat(exp)):
         acc.v("RecurrencePlot.recurrence_matrix:%s:%s" % (
-            _classify(R, exp, K, tk, missing, missing), tag),
+            _classify(R, exp, boundary, missing, missing), tag),
               "%s, %r: R is not the thresholded distance matrix" % (
                   metric, par), R, exp)
     bad = _sizes(rp, "RecurrencePlot", R, tag, acc)
@@ -286,7 +303,7 @@ def _plot(arr, metric, kw, par, variant, exp, K, tk, missing, acc,
     acc.see(_rqa(rp, "RecurrencePlot", tag, acc, bad))
     if network and (metric == "supremum" or
                     acc.budget(("net", metric, variant))):
-        _network(arr, metric, kw, par, variant, exp, missing, acc, directed)
+        _network(arr, metric, kw, par, variant, R, missing, acc, directed)
     return R
 
 
@@ -360,7 +377,8 @@ def fam_rp(case):
         for t in menu:
             tk = rr.threshold_key(t, metric)
             _plot(arr, metric, kw, {"threshold": t}, "threshold",
-                  rr.threshold_matrix(K, tk), K, tk, missing, acc)
+                  rr.threshold_matrix(K, tk),
+                  _at(K, rr.boundary_key(t, metric)), missing, acc)
         if anynan:
             for r in RATES:
                 _missing_rule(arr, metric, kw, {"recurrence_rate": r},
@@ -398,16 +416,19 @@ def fam_rp(case):
                 exp = [[1 if rr.below_std(k, sq, metric) else 0 for k in row]
                        for row in K]
                 _plot(arr, metric, kw, {"threshold_std": ts_},
-                      "threshold_std", exp, K, None, missing, acc)
+                      "threshold_std", exp,
+                      (lambda i, j: K[i][j] == 0) if sq is None else
+                      (lambda i, j, sq=sq: rr.std_gap(K[i][j], sq, metric)
+                       == 0), missing, acc)
         else:
             acc.x("threshold_std of a multi-dimensional series (which std is "
                   "meant is not stated)")
         # -- fixed global / local rates
         for r in RATES:
             _plot(arr, metric, kw, {"recurrence_rate": r}, "recurrence_rate",
-                  rr.rate_matrix(K, r), K, None, missing, acc)
+                  rr.rate_matrix(K, r), None, missing, acc)
             R = _plot(arr, metric, kw, {"local_recurrence_rate": r},
-                      "local_recurrence_rate", rr.local_rate_matrix(K, r), K,
+                      "local_recurrence_rate", rr.local_rate_matrix(K, r),
                       None, missing, acc, directed=True)
             free = [i for i in range(n) if rr.tie_free(K[i])]
             acc.evals += 1
@@ -441,7 +462,7 @@ def fam_rp(case):
                       "adaptive", "size %d" % s, off.sum(axis=1), ">= %d" % s)
             bad = _sizes(rp, "RecurrencePlot", R, "adaptive", acc)
             acc.see(_rqa(rp, "RecurrencePlot", "adaptive", acc, bad))
-            _network(arr, metric, kw, par, "adaptive", None, missing, acc)
+            _network(arr, metric, kw, par, "adaptive", R, missing, acc)
     return acc.result(n <= 1)
 
 
@@ -458,6 +479,15 @@ def fam_cross(case):
     ax, ay = _np(x), _np(y)
     kw = dict(dim=dim, tau=tau) if emb else {}
     nomiss_r, nomiss_c = [False] * nx, [False] * ny
+    crp = CrossRecurrencePlot(ax, ay, threshold=1024.0, silence_level=3, **kw)
+    acc.evals += 1
+    for got, S in ((crp.x_embedded, X), (crp.y_embedded, Y)):
+        want = np.array([[float(v) for v in s] for s in S], dtype=float)
+        if np.asarray(got).shape != want.shape or \
+                not np.array_equal(np.asarray(got), want):
+            acc.v("CrossRecurrencePlot.embedding:value:" + (
+                "embedded" if emb else "plain"), "", got, want)
+            return acc.result(nx * ny <= 1)
     for metric in METRICS:
         K = rr.key_matrix(X, Y, metric)
         menu, skipped = rr.threshold_menu(K, metric)
@@ -490,7 +520,9 @@ def fam_cross(case):
             acc.see(metric, par, CR.tolist())
             if CR.shape != (nx, ny) or not np.array_equal(CR, _mat(exp)):
                 acc.v("CrossRecurrencePlot.recurrence_matrix:%s:%s" % (
-                    _classify(CR, exp, K, tk, nomiss_r, nomiss_c), variant),
+                    _classify(CR, exp, _at(K, rr.boundary_key(
+                        par["threshold"], metric)) if variant == "threshold"
+                        else None, nomiss_r, nomiss_c), variant),
                       "%s, %r" % (metric, par), CR, exp)
             bad = _sizes(crp, "CrossRecurrencePlot", CR, variant, acc,
                          cross=True)
@@ -597,8 +629,9 @@ def fam_joint(case):
                 continue
             JR = _mat(jrp.recurrence_matrix())
             acc.see(mp, par, JR.tolist())
-            if JR.shape != (size, size) or \
-                    not np.array_equal(JR, _mat(exp)):
+            jr_ok = JR.shape == (size, size) and \
+                np.array_equal(JR, _mat(exp))
+            if not jr_ok:
                 acc.v("JointRecurrencePlot.recurrence_matrix:value:" + tag,
                       "%r %r lag %d: JR is not the product of the shifted "
                       "recurrence matrices" % (mp, par, lag), JR, exp)
@@ -624,10 +657,14 @@ def fam_joint(case):
                           _exc(e), _exc(e), "a network")
                 continue
             A = _mat(net.adjacency)
-            want = _mat(rr.no_diagonal(exp))
+            JRn = _mat(net.JR)
+            if JRn.shape != JR.shape or not np.array_equal(JRn, JR):
+                acc.v("JointRecurrenceNetwork.JR:differs-from-plot:" + tag,
+                      "%r %r lag %d" % (mp, par, lag), JRn, JR)
+            want = _mat(rr.no_diagonal(JRn.tolist()))
             if A.shape != want.shape or not np.array_equal(A, want):
                 if A.shape == want.shape and np.array_equal(
-                        A, _mat(exp) - np.eye(size, dtype=int)) and \
+                        A, JRn - np.eye(len(JRn), dtype=int)) and \
                         (np.diag(A) == -1).any():
                     key = "JointRecurrenceNetwork.adjacency:diagonal=-1:" \
                           "zero-diagonal-JR"
@@ -651,17 +688,20 @@ def fam_joint(case):
                 acc.v("JointRecurrenceNetwork.set_fixed_threshold:raises:"
                       + lc, _exc(e), _exc(e), exp2)
                 continue
-            if not np.array_equal(JR2, _mat(exp2)):
+            if JR2.shape != (size, size):
                 acc.v("JointRecurrenceNetwork.set_fixed_threshold:JR:" + lc,
-                      "", JR2, exp2)
+                      "shape", JR2.shape, (size, size))
             elif A.shape != JR2.shape or not np.array_equal(
-                    A, _mat(rr.no_diagonal(exp2))):
+                    A, _mat(rr.no_diagonal(JR2.tolist()))):
                 loops = A.shape == JR2.shape and bool(np.diag(A).any())
                 acc.v("JointRecurrenceNetwork.set_fixed_threshold:%s:%s" % (
                     "self-loops" if loops else "adjacency", lc),
                       "%r lag %d: adjacency after set_fixed_threshold is not "
                       "JR without its diagonal" % (mp, lag), A,
-                      rr.no_diagonal(exp2))
+                      rr.no_diagonal(JR2.tolist()))
+            elif jr_ok and not np.array_equal(JR2, _mat(exp2)):
+                acc.v("JointRecurrenceNetwork.set_fixed_threshold:JR:" + lc,
+                      "%r lag %d" % (mp, lag), JR2, exp2)
     return acc.result(size <= 1)
 
 
@@ -733,10 +773,24 @@ def fam_isrn(case):
                 continue
             A = _mat(net.adjacency)
             acc.see(metric, par, A.tolist())
+            own = [_mat(net.rp_x.recurrence_matrix()),
+                   _mat(net.crp_xy.recurrence_matrix()),
+                   _mat(net.rp_y.recurrence_matrix())]
+            blocks_ok = all(
+                o.shape == _mat(e).shape and np.array_equal(o, _mat(e))
+                for o, e in zip(own, (Rx, CR, Ry)))
+            if not blocks_ok:
+                acc.v("InterSystemRecurrenceNetwork.blocks:value:%s:%s" % (
+                    variant, tag), "%s %r: the recurrence / cross recurrence "
+                      "matrices of the two systems" % (metric, par),
+                      [o.tolist() for o in own], [Rx, CR, Ry])
+                continue
             want = _mat(rr.no_diagonal(ISRM))
             if A.shape != want.shape or not np.array_equal(A, want):
-                acc.v("InterSystemRecurrenceNetwork.adjacency:value:%s:%s" % (
-                    variant, tag), "%s %r" % (metric, par), A, want)
+                acc.v("InterSystemRecurrenceNetwork.adjacency:value:" + tag,
+                      "%s %r: adjacency is not the block matrix "
+                      "[[Rx, CR], [CR^T, Ry]] without its diagonal" % (
+                          metric, par), A, want)
             M = np.asarray(net.inter_system_recurrence_matrix())
             if M.shape != (nx + ny, nx + ny) or \
                     not np.array_equal(M, _mat(ISRM)):
@@ -827,7 +881,8 @@ def _cross_cases(thorough):
     for x in _seqs(ALPHA, 1, 3):
         for y in _seqs(ALPHA, 1, 3):
             out.append({"x": x, "y": y, "emb": None})
-    # pairs involving a series of length 4
+    # pairs involving a series of length 4: three letters; thorough also the
+    # full alphabet against the short partners
     for x in _seqs(ALPHA3, 1, 4):
         for y in _seqs(ALPHA3, 1, 4):
             if max(len(x), len(y)) < 4:
@@ -835,6 +890,13 @@ def _cross_cases(thorough):
             if not thorough and min(len(x), len(y)) > 2:
                 continue
             out.append({"x": x, "y": y, "emb": None})
+    if thorough:
+        for a in _seqs(ALPHA, 4, 4):
+            for b in _seqs(ALPHA, 1, 2):
+                if set(a) | set(b) <= set(ALPHA3):
+                    continue            # already listed above
+                out.append({"x": a, "y": b, "emb": None})
+                out.append({"x": b, "y": a, "emb": None})
     # embedding (the same for both series)
     for emb in EMBS[1:]:
         need = (emb[0] - 1) * emb[1] + 1
@@ -876,7 +938,10 @@ def _joint_cases(thorough):
     for emb in J_EMBS:
         for n in range(2, 5):
             m = min(_n_embedded(n, emb[0]), _n_embedded(n, emb[1]))
-            alpha = ALPHA3 if (n < 4 or thorough) else [0.0, 2.0]
+            if n == 2 or (n == 3 and thorough):
+                alpha = ALPHA3
+            else:
+                alpha = [0.0, 2.0]
             for x in itertools.product(alpha, repeat=n):
                 for y in itertools.product(alpha, repeat=n):
                     for lag in (0, 1, -1, 2, -2):
@@ -917,9 +982,10 @@ def _isrn_cases(thorough):
     for emb in I_EMBS:
         nx = (emb[0] - 1) * emb[1][0] + 1
         ny = (emb[0] - 1) * emb[1][1] + 1
-        alpha = [0.0, 0.5, 2.0] if thorough else [0.0, 2.0]
-        for x in _seqs(alpha, nx, 4):
-            for y in _seqs(alpha, ny, 4):
+        for x in _seqs(ALPHA3 if thorough else [0.0, 2.0], nx, 4):
+            for y in _seqs(ALPHA3 if thorough else [0.0, 2.0], ny, 4):
+                if len(x) + len(y) == 8 and (set(x) | set(y)) - {0.0, 2.0}:
+                    continue        # (4,4): two letters only
                 out.append({"x": x, "y": y, "emb": [emb[0], list(emb[1])],
                             "metrics": None})
     for lx in range(1, 3):
@@ -949,16 +1015,26 @@ def run(ctx):
         "when the plot has a single entry; distinct = distinct tuples of all "
         "matrices and line histograms observed for the case." % (
             lmax, ALPHA, EMBS, STD_MENU, RATES))
+    only = [f for f in os.environ.get("VERIF_C07_FAMILIES", "").split(",")
+            if f]                      # development aid: run some families
+    if only:
+        ctx.exhaustive = False
+        ctx.notes["families_run"] = only
     cases, sk = _rp_cases(lmax)
-    ctx.excluded["embedding longer than the series (no state vector)"] = sk
-    ctx.explore("rp", cases, desc="RecurrencePlot / RecurrenceNetwork")
     cc = _cross_cases(thorough)
-    ctx.explore("cross", cc, desc="CrossRecurrencePlot, unequal lengths")
-    jc, sk = _joint_cases(thorough)
-    ctx.excluded["|lag| >= number of joint states"] = sk
-    ctx.explore("joint", jc, desc="JointRecurrencePlot/Network with lag")
+    jc, sk2 = _joint_cases(thorough)
     ic = _isrn_cases(thorough)
-    ctx.explore("isrn", ic, desc="InterSystemRecurrenceNetwork")
+    if not only or "rp" in only:
+        ctx.excluded["embedding longer than the series (no state vector)"] = \
+            sk
+        ctx.explore("rp", cases, desc="RecurrencePlot / RecurrenceNetwork")
+    if not only or "cross" in only:
+        ctx.explore("cross", cc, desc="CrossRecurrencePlot, unequal lengths")
+    if not only or "joint" in only:
+        ctx.excluded["|lag| >= number of joint states"] = sk2
+        ctx.explore("joint", jc, desc="JointRecurrencePlot/Network with lag")
+    if not only or "isrn" in only:
+        ctx.explore("isrn", ic, desc="InterSystemRecurrenceNetwork")
     ctx.notes.update({
         "rp_scalar_length_max": lmax, "rp_nan_length_max": 4,
         "rp_2d_length_max": 3, "rp_cases": len(cases),
